@@ -118,7 +118,9 @@ func c05Requests(c mcfg) []mevent {
 	r = append(r, mevent{Op: "attach", Fid: 1, Afid: wire.NOFID, Uid: 7, Uname: "glenda"}, mevent{Op: "attach", Fid: 2, Afid: 1, Uid: 7, Uname: "glenda"},
 		mevent{Op: "attach", Fid: 2, Afid: wire.NOFID, Uid: 8, Uname: "bob"}, mevent{Op: "attach", Fid: 2, Afid: 1, Uid: 7, Uname: "glenda", AuthNo: true},
 		mevent{Op: "attach", Fid: 2, Afid: wire.NOFID, Uid: 7, Uname: "glenda", AuthNo: true}, mevent{Op: "attach", Fid: 2, Afid: 2, Uid: 7, Uname: "glenda"},
-		mevent{Op: "auth", Afid: 1, Uid: 7, Uname: "glenda"}, mevent{Op: "auth", Afid: 2, Uid: 7, Uname: "glenda"}, mevent{Op: "auth", Afid: 2, Uid: 7, Uname: "glenda", ImplErr: true})
+		mevent{Op: "auth", Afid: 1, Uid: 7, Uname: "glenda"}, mevent{Op: "auth", Afid: 2, Uid: 7, Uname: "glenda"}, mevent{Op: "auth", Afid: 2, Uid: 7, Uname: "glenda", ImplErr: true},
+		// a name and a number that belong to different users (in 9P2000.u the number says who it is)
+		mevent{Op: "attach", Fid: 2, Afid: wire.NOFID, Uid: 7, Uname: "bob"}, mevent{Op: "attach", Fid: 2, Afid: wire.NOFID, Uid: 8, Uname: "root"}, mevent{Op: "auth", Afid: 2, Uid: 8, Uname: "glenda"})
 	return r
 }
 
